@@ -91,14 +91,16 @@ Print Assumptions C14_idle_on_clean.
 (* CONVERGENCE STEP (PAR1), for every archive state: a successful Repair leaves a state in which Verify - with
    or without the full parity check - counts no unusable file, and ANY further Repair rewrites nothing.
    Premises: distinct target paths; no saved file's path is the index or one of the volume paths the loader
-   reads (.p01 .. .pNN) - that no written path lies BELOW a volume path is proved, not assumed *)
+   reads (.p01 .. .pNN, NN = min (256 - the number of entries SAVED in the set) 99) - that no written path lies BELOW a
+   volume path is proved, not assumed *)
 Theorem C14_par1_success_then_clean_and_idle : forall md5 ix dbl fs rp st' s st1 all,
   par1_repair md5 ix dbl (io_init fs []) = ((Ok tt, rp), st') ->
   p1_load md5 ix (io_init fs []) = (Ok s, st1) ->
   NoDup (map (fun e => join2 (dir ix) (e_name e)) (s_saved s)) ->
   (forall e, In e (s_saved s) ->
      join2 (dir ix) (e_name e) <> ix /\
-     forall k, 0 < k <= N.min (256 - v_count (s_vol s)) 99 -> join2 (dir ix) (e_name e) <> volume_path ix k) ->
+     forall k, 0 < k <= N.min (256 - N.of_nat (length (filter saved (v_entries (s_vol s))))) 99 ->
+       join2 (dir ix) (e_name e) <> volume_path ix k) ->
   exists c ok st2, par1_verify md5 ix all (io_init (io_fs st') []) = (Ok (c, ok), st2) /\ fc_unusable c = 0%nat /\
     forall dbl2 r2 rp2 st3, par1_repair md5 ix dbl2 (io_init (io_fs st') []) = ((r2, rp2), st3) ->
       rp2 = [] /\ io_fs st3 = io_fs st'.
